@@ -485,6 +485,9 @@ func superviseDecode(r *ev.Run, prop string, thorough bool) {
 					switch m.Kind {
 					case "violation":
 						r.Violate(m.Violation)
+						if r.NumViolations() >= 12 {
+							stopAll.Store(true) // enough counterexamples: stop exploring (reported as not exhaustive)
+						}
 					case "sample":
 						r.Sample(m.Sample)
 					case "done":
@@ -542,7 +545,7 @@ func superviseDecode(r *ev.Run, prop string, thorough bool) {
 	}
 	wg.Wait()
 	if stopAll.Load() {
-		r.Cap("exploration stopped early after 7 worker deaths/hangs (violations reported)")
+		r.Cap("exploration stopped early after 12 violations or 7 worker deaths/hangs (violations reported)")
 	}
 	r.Set("worker_processes", n)
 	r.Set("worker_deaths", deaths)
